@@ -24,8 +24,8 @@ Inductive impl_result := IVal (e : expr) | IRecursion | IOther.
 Definition fuel0 : nat := 400.
 
 (* 0 agree; 1 model Ok / impl error; 2 model loop / impl value; 3 values differ; 4 free symbols; 5 out of fuel vs value *)
-Definition check_value_of (tol : Q) (envs : list (list (string * Q))) (r : resolver) (e : expr) (got : impl_result) : nat :=
-  match value_of fuel0 r [] e, got with
+Definition compare_outcome (tol : Q) (envs : list (list (string * Q))) (o : outcome expr) (got : impl_result) : nat :=
+  match o, got with
   | Ok m, IVal v => if negb (same_value tol envs m v) then 3 else if negb (subset (free_syms v) (free_syms m)) then 4 else 0
   | Ok _, _ => 1
   | Loop, IRecursion => 0
@@ -33,6 +33,8 @@ Definition check_value_of (tol : Q) (envs : list (list (string * Q))) (r : resol
   | Loop, _ => 2
   | OutOfFuel, _ => 5
   end.
+Definition check_value_of (tol : Q) (envs : list (list (string * Q))) (r : resolver) (e : expr) (got : impl_result) : nat :=
+  compare_outcome tol envs (value_of fuel0 r [] e) got.
 
 Definition check_once (tol : Q) (envs : list (list (string * Q))) (r : resolver) (e : expr) (got : impl_result) : nat :=
   match got with
@@ -65,10 +67,28 @@ Fixpoint first_bad (i : nat) (c : rcase) (qs : list (expr * impl_result * impl_r
       end
   end.
 
+(* the model with the memo table, threaded through the queries as the resolver object does (codes 30+) *)
+Fixpoint first_bad_seq (i : nat) (c : rcase) (os : list (outcome expr)) (qs : list (expr * impl_result * impl_result * list string * bool))
+  : option (nat * nat) :=
+  match os, qs with
+  | o :: os', (e, g, g1, names, isp) :: rest =>
+      match compare_outcome (rc_tol c) (rc_envs c) o g with
+      | S k => Some (i, 30 + S k)
+      | O => first_bad_seq (S i) c os' rest
+      end
+  | _, _ => None
+  end.
+
+Definition case_bad (c : rcase) : option (nat * nat) :=
+  match first_bad 0 c (rc_queries c) with
+  | Some x => Some x
+  | None => first_bad_seq 0 c (value_of_seq fuel0 (rc_res c) [] (map (fun q => fst (fst (fst (fst q)))) (rc_queries c))) (rc_queries c)
+  end.
+
 Fixpoint rfail_from (n : nat) (l : list rcase) : list (nat * nat * nat) :=
   match l with
   | [] => []
-  | c :: r => match first_bad 0 c (rc_queries c) with
+  | c :: r => match case_bad c with
               | None => rfail_from (S n) r
               | Some (i, k) => (n, i, k) :: rfail_from (S n) r
               end
